@@ -201,7 +201,7 @@ def ob_engine(ename, spec0, N, lp, lr, sym_default, api, label):
     return run
 
 
-def obligations(tier, seed):
+def _obligations(tier, seed):
     obs = []
     E = engines()
     base = ("mamdani-centroid", "takagi-sugeno")
@@ -219,3 +219,8 @@ def obligations(tier, seed):
                     nm = f"{ename}/N{N}/{'LP' if lp else 'lp'}{'LR' if lr else 'lr'}{'D' if sd else 'd'}/{api}"
                     obs.append((nm, ob_engine(ename, spec, N, lp, lr, sd, api, nm)))
     return obs
+
+
+def obligations(tier, seed):
+    from . import conform
+    return _obligations(tier, seed) + conform.obligations(PROPERTY, tier)
